@@ -931,6 +931,7 @@ def check(run):
         for v in oracle_case(c, r):
             v.origin = (cases, c)
             run.violations.append(v)
+    run.violations += local_zone_runs(run, cases, impl)
     run.coverage["distribution"] = hist
     run.coverage["operations"] = nops
     run.coverage["types_covered"] = sorted({"%s/%s" % (c["ver"], c["ty"]) for c in cases if c["kind"] == "versionable"})
@@ -981,7 +982,7 @@ def minimise(v):
     small["ops"] = case["ops"][-1:]
     small["allow_custom"] = True
     try:
-        res = common.run_impl("c05_impl", [small], procs=1)[0]
+        res = impl_run([small], procs=1, tz=v.replay.get("tz"))[0]
         again = [x for x in oracle_case(small, res) if x.replay.get("check") == v.replay.get("check")]
     except Exception:  # noqa: BLE001
         again = []
@@ -993,16 +994,65 @@ def minimise(v):
     return v
 
 
+TZ_ZONES = ["JST-9", "EST5EDT"]          # POSIX TZ strings: no tz database needed
+
+
+def impl_run(cases, procs=None, tz=None):
+    """common.run_impl, the workers' process time zone set to `tz` (None: as inherited)."""
+    if tz is None:
+        return common.run_impl("c05_impl", cases, procs=procs)
+    old = os.environ.get("TZ")
+    os.environ["TZ"] = tz
+    try:
+        return common.run_impl("c05_impl", cases, procs=procs)
+    finally:
+        if old is None:
+            os.environ.pop("TZ", None)
+        else:
+            os.environ["TZ"] = old
+
+
+def local_zone_runs(run, cases, impl):
+    """A share of the chains again in workers whose process time zone is not UTC (all chains holding naive
+    datetimes, and a sample of the others): naive = UTC by the library's rule, so every answer must be the same."""
+    def has_naive(c):
+        return any("dt" in v and v["dt"][1] is None for _, v in c["init"]) or \
+            any("dt" in v and v["dt"][1] is None for o in c["ops"] for _, v in o.get("changes", []))
+    idx = [i for i, c in enumerate(cases) if has_naive(c)][:120]
+    idx = sorted(set(idx + list(range(0, len(cases), max(1, len(cases) // 120)))))
+    sub = [cases[i] for i in idx]
+    out = []
+    info = {}
+    for tz in TZ_ZONES:
+        res = impl_run(sub, procs=min(common.NCPU, 8), tz=tz)
+        nd = 0
+        for i, c, r in zip(idx, sub, res):
+            if r.get("line") != impl[i].get("line") or ("badcase" in r) != ("badcase" in impl[i]):
+                nd += 1
+                if nd <= 5:
+                    out.append(Violation("the outcome of the chain depends on the time zone of the process (TZ=%s: %s; TZ unset/UTC: %s) [%s %s %s]"
+                                         % (tz, str(r.get("line", r))[:300], str(impl[i].get("line", impl[i]))[:300], c["ver"], c["carrier"], c.get("ty")),
+                                         {"case": c, "check": "process time zone", "tz": tz, "utc_line": impl[i].get("line")}, None))
+            for v in oracle_case(c, r):
+                v.replay["tz"] = tz
+                out.append(v)
+        info[tz] = {"chains": len(sub), "differences": nd}
+    run.coverage["local_zone_runs"] = info
+    return out
+
+
 def kind_of(v):
     return str(v.replay.get("check")).split(" (")[0].split(": ")[0].split(" '")[0]
 
 
-def shows(case, before, kind):
+def shows(case, before, kind, tz=None, utc_line=None):
     """does the failure show in a fresh interpreter that first handles `before`, then `case`?"""
     try:
-        res = common.run_impl("c05_impl", list(before) + [case], procs=1)
+        res = impl_run(list(before) + [case], procs=1, tz=tz)
     except RuntimeError:
         return False
+    if kind == "process time zone":
+        return res[-1].get("line") != utc_line
     return any(kind_of(x) == kind for x in oracle_case(case, res[-1]))
 
 
@@ -1011,13 +1061,20 @@ def reproducible(v, original):
     chain; if it still does not (it depended on what the same worker process had handled before, e.g. a verdict
     cached for a type), the replay gets the chains that preceded it in that process: those of the same type first."""
     kind = kind_of(v)
+    tz, utc_line = original.replay.get("tz"), original.replay.get("utc_line")
+    if tz:
+        v.replay["tz"] = tz
     clean = lambda c: {k: x for k, x in c.items() if k != "_state_before"}
-    if shows(clean(v.replay["case"]), [], kind):
+    if kind == "process time zone":
+        v = original
+        v.replay["case"] = clean(v.replay["case"])
+        return v
+    if shows(clean(v.replay["case"]), [], kind, tz):
         return v
     v = original
     case = clean(v.replay["case"])
     v.replay["case"] = case
-    if shows(case, [], kind) or not hasattr(original, "origin"):
+    if shows(case, [], kind, tz) or not hasattr(original, "origin"):
         return v
     allc, c0 = original.origin
     idx = next((i for i, c in enumerate(allc) if c is c0), None)
@@ -1026,7 +1083,7 @@ def reproducible(v, original):
     procs = min(common.NCPU, max(1, len(allc) // 50))       # how run_impl dealt the cases out
     before = [allc[j] for j in range(idx % procs, idx, procs)]
     for pre in ([c for c in before if c.get("ty") == c0.get("ty")], before):
-        if pre and shows(case, pre, kind):
+        if pre and shows(case, pre, kind, tz):
             v.replay["before"] = pre
             v.replay["note"] = "order-dependent: the %d chains in `before` prepare the interpreter state" % len(pre)
             return v
@@ -1048,9 +1105,16 @@ def replay(payload):
     r = payload["replay"]
     case = r["case"]
     case.pop("_state_before", None)
-    res = common.run_impl("c05_impl", list(r.get("before", [])) + [case], procs=1)[-1]
-    print("replay %s %s %s: %s" % (case["ver"], case["carrier"], case.get("ty"), res.get("line", res)[:2000]))
+    res = impl_run(list(r.get("before", [])) + [case], procs=1, tz=r.get("tz"))[-1]
+    print("replay%s %s %s %s: %s" % (" TZ=" + r["tz"] if r.get("tz") else "", case["ver"], case["carrier"], case.get("ty"),
+                                     str(res.get("line", res))[:2000]))
     v = oracle_case(case, res)
+    if r.get("tz") and r.get("check") == "process time zone":
+        utc = impl_run(list(r.get("before", [])) + [case], procs=1, tz="UTC")[-1]
+        if utc.get("line") != res.get("line"):
+            print("  the outcome differs from that of a process in UTC: %s" % str(utc.get("line", utc))[:1500])
+            print("VIOLATION property=C05 replay=(given)")
+            return 1
     if v:
         for x in v[:3]:
             print("  " + x.what[:600])
